@@ -78,6 +78,8 @@ def main():
         except ValueError:
             seed = 1
     sys.setrecursionlimit(10000)
+    from harness import logcap
+    logcap.install()
     t0 = time.time()
     try:
         mod = importlib.import_module("checks.%s" % prop.lower())
